@@ -372,9 +372,12 @@ def evaluate(ctx, model, t0, t1):
             ctx.violation("R05.1", "case|" + key, sp, "no operator is written for %s in this case (the closing parenthesis is still written)" % vn)
             continue
         args = list(cs)
-        if vn == "BVZeroExt" and tok == "ite":
+        if vn in ("BVZeroExt", "BVSignExt") and tok == "ite":
             args = [cs[0], "BVn", "BVn"]
-        ok, res, why = sig(tok, args, dict(facts_))
+        try:
+            ok, res, why = sig(tok, args, dict(facts_))
+        except IndexError:
+            ok, res, why = False, "?", "operator %s written with %d argument(s)" % (tok, len(args))
         want_nat = nat_of(vn, result1) if result1 is not None else facts_["arr"]
         if vn in ("BVIte",) and result1:
             want_nat = nat_of(vn, True)
